@@ -28,6 +28,66 @@ CHECKS = {
              'and compared with numpy indexing on the full array from the reference model (or, for a file cut inside '
              'its last segment, on what [:] returns). Per-world window enumeration is exhaustive for small channels; '
              'worlds are sampled.'),
+    'C02': dict(
+        level='exploration', ref='DESIGN.md §4 C02',
+        technique='deterministic simulation of a producer history: segments appended one at a time, tailing reader '
+                  '(eager + lazy) after every append vs reference model and vs the explicit re-encoding; injected '
+                  'forbidden encodings',
+        text='Seeded segment histories over the header-encoding choices {full, matches-previous, no-data, unlisted} x '
+             'kTocNewObjList x kTocMetaData; after every appended segment the file so far is read eagerly and lazily '
+             'and compared with the model, with the read of the fully explicit re-encoding and (monotonicity) with '
+             'the previous prefix; 15% of worlds carry one forbidden encoding and must be rejected.'),
+    'C03': dict(
+        level='exploration', ref='DESIGN.md §4 C03',
+        technique='deterministic simulation: several handles with seeded configurations ({read,open} x backend x '
+                  'memmap x raw_timestamps) on one stored file, all access paths cross-checked and checked against '
+                  'the model',
+        text='Per seeded world 3-4 handles are opened on the same stored file through different storage backends and '
+             'options; every documented access path of every channel is executed on each and all results must agree '
+             'with each other (exactly, per timestamp representation) and with the reference model; chunk offsets '
+             'must equal the running count.'),
+    'C05': dict(
+        level='exploration', ref='DESIGN.md §4 C05',
+        technique='deterministic simulation with a seeded scheduler: library generators are cooperative tasks, the '
+                  'scheduler picks which advances next, interleaved with direct reads on one handle; refinement '
+                  'against run-alone executions and the stateless model; bounded-progress drain',
+        text='The scheduler interleaves up to 8 live generators (file-level and channel-level chunk streams, value '
+             'iterators) with index / slice / window reads on one lazily opened handle; every yielded item must equal '
+             'the item the same generator yields when run alone on a fresh handle, every direct read must equal the '
+             'stateless model, and once only one generator is advanced it must finish within remaining+1 steps.'),
+    'C06': dict(
+        level='fault_enumeration', ref='DESIGN.md §4 C06',
+        technique='deterministic simulation with crash injection: the producer is killed at EVERY byte offset of '
+                  'each seeded world; truncated file read eagerly + lazily (SimFS and real files) against the prefix '
+                  'oracle from the reference model',
+        text='Crash points are enumerated exhaustively per world (every cut 4..len), worlds are seeded. Per cut: no '
+             'exception, values are a prefix of the complete file, at least the values of segments wholly before the '
+             'cut, len() equals the count returned, lazy == eager, incomplete_final_segment exactly when the cut is '
+             'strictly inside raw data (boundary cases the statement leaves open are don\'t-care).'),
+    'C11': dict(
+        level='exploration', ref='DESIGN.md §4 C11',
+        technique='deterministic simulation: DAQmx stub producer with random buffers, seeded delivery schedule, lazy '
+                  'window histories and crash at every byte of the last segment; expected columns from the model\'s '
+                  'own (buffer, row, offset) arithmetic',
+        text='Seeded DAQmx worlds (channels x scalers x buffers of differing widths and lengths x chunks x byte '
+             'orders); every scaler column is compared with the model; unscaled/scaled access paths, lazy windows and '
+             'chunk streams must equal slices of it; the last segment is cut at every byte and must yield only '
+             'complete rows, a prefix, with lazy == eager.'),
+    'C15': dict(
+        level='exploration', ref='DESIGN.md §4 C15',
+        technique='deterministic simulation (fault-free, metamorphic): each seeded world encoded little-endian, '
+                  'big-endian and with per-segment byte order by the stub; reads compared with each other and the model',
+        text='The same logical content (incl. DAQmx scaler records and buffers, timestamps, strings, all property '
+             'types, header inheritance across byte-order changes) is encoded three ways; eager and lazy reads of '
+             'all three must be identical and equal to the model.'),
+    'C19': dict(
+        level='exploration', ref='DESIGN.md §4 C19',
+        technique='deterministic simulation: I/O-trace monitor on the simulated disk; every read()/readinto() of each '
+                  'op in a seeded history is checked against the byte set allowed by the model\'s provenance table',
+        text='A recording SimFile is handed to TdmsFile.open; for seeded histories of windows, slices and integer '
+             'indices every byte fetched must lie in the requested channel\'s extents (contiguous) or the chunk '
+             'extents (interleaved/DAQmx) of the chunks overlapping the request, plus 4 tag bytes per segment in '
+             'range; an index into the chunk just served must issue no read at all.'),
 }
 
 NOT_APPLICABLE = [
